@@ -36,6 +36,7 @@ def walk_invariant(ctx, trie, history):
     root = getattr(trie, "_TrieDict__root", None)
     if root is None:
         ctx.count("invariant-root-absent")
+        ctx.count("invariant-walks:not-applicable")
         return
     ctx.count("invariant-walks")
     bad = []
@@ -159,7 +160,8 @@ def install(ctx):
         if cur is not None and args is not None and args.get("self") is cur["t"]:
             walk_invariant(ctx, cur["t"], cur["h"])
 
-    pr.watch("ural.classes.trie_dict:TrieDict.__setitem__", on_return=on_ret)
+    if not pr.watch("ural.classes.trie_dict:TrieDict.__setitem__", on_return=on_ret):
+        ctx.count("invariant-walks:not-applicable")
     pr.watch("ural.classes.trie_dict:TrieDict.longest_matching_prefix_value", want_args=False)
     pr.watch("ural.classes.trie_dict:TrieDict.get", want_args=False)
     pr.watch("ural.classes.trie_dict:TrieDict.__getitem__", want_args=False)
